@@ -120,6 +120,12 @@ pub fn run(tier: &str, seed: u64, outdir: &str, _extra: &[String]) {
             variants.push((format!("vp8x_alpha{}", f as u8), riff(&chunks)));
             let fr = Frame { x: 0, y: 0, w, h, duration: 40, blend: false, dispose: false, chunks: ic.clone() };
             variants.push((format!("anmf_alpha{}", f as u8), animation(w, h, f, [1, 2, 3, 4], 0, &[fr])));
+            if !lossless && !has_alph {
+                // an opaque lossy frame with the blending bit set, over a translucent background: the canvas must become opaque
+                // (lossless / ALPH frames are left out: blending them meets the known finding F14)
+                let fr = Frame { x: 0, y: 0, w, h, duration: 40, blend: true, dispose: false, chunks: ic.clone() };
+                variants.push((format!("anmf_blend_alpha{}", f as u8), animation(w, h, f, [9, 8, 7, 0x80], 0, &[fr])));
+            }
         }
         // reference RGBA: libwebp for lossless payloads; the crate's own vp8x_alpha1 decode otherwise
         let mut reference: Option<Vec<u8>> = None;
